@@ -8,6 +8,9 @@ Local Open Scope N_scope.
 Definition C11_goal (restore : bool) : Prop := forall s rs,
   run_shared restore s rs = map (run_fresh restore s) rs.
 
+(* C11_goal_modulo_overflow true is the statement still open on the model: it adds to
+   C11_history_independent_if_restored that the long-lived store never overflows where a
+   fresh one does not (frame monotonicity of memoisation) — covered by K and the oracle only *)
 (* the property outside the one boundary that memoisation under a frame limit imposes:
    requests that overflow the stack on a fresh store are excluded *)
 Definition C11_goal_modulo_overflow (restore : bool) : Prop := forall s rs,
@@ -47,6 +50,38 @@ Proof.
   destruct (chain_memo_limit restore) as [Hs Hf]. rewrite Hs, Hf in H. discriminate H.
 Qed.
 
+(* the machine that restores on failure (the code after the repair): on EVERY store and
+   EVERY request sequence, each request answers exactly as on a fresh store — stack
+   overflows, on either side, apart *)
+Theorem C11_history_independent_if_restored : forall s rs,
+  Forall2 agree (run_shared true s rs) (map (run_fresh true s) rs).
+Proof. exact history_independent_if_restored. Qed.
+
+(* ... hence plain equality of the answer lists when no answer is a stack overflow *)
+Theorem C11_history_independent_if_restored_eq : forall s rs,
+  Forall (fun o => is_overflow o = false) (run_shared true s rs) ->
+  Forall (fun o => is_overflow o = false) (map (run_fresh true s) rs) ->
+  run_shared true s rs = map (run_fresh true s) rs.
+Proof. exact history_independent_if_restored_eq. Qed.
+
+(* both machines: while no request fails on the long-lived store, memoised (Done) cells are
+   semantically invisible *)
+Theorem C11_memo_transparent : forall restore s rs,
+  Forall (fun o => is_fail o = false) (run_shared restore s rs) ->
+  Forall2 (fun a b => a = b \/ is_overflow b = true) (run_shared restore s rs) (map (run_fresh restore s) rs).
+Proof. exact memo_transparent. Qed.
+
+(* non-vacuity: the two refutation histories meet the hypotheses of the _eq theorem on the
+   restoring machine (failures, no overflow) and get equal answers; a history with a
+   memoised sub-result meets those of memo_transparent *)
+Example C11_restored_nonvacuous :
+  run_shared true boom_store boom_reqs = [RErr (EUser 7); RErr (EUser 7)] /\
+  run_shared true assert_store2 assert_reqs2 = [RErr (EAssert 4); RErr (EAssert 4)] /\
+  Forall (fun o => is_overflow o = false) (run_shared true boom_store boom_reqs) /\
+  Forall (fun o => is_overflow o = false) (map (run_fresh true boom_store) boom_reqs) /\
+  Forall (fun o => is_fail o = false) (run_shared false chain_store chain_reqs).
+Proof. vm_compute. repeat split; repeat constructor. Qed.
+
 (* "unknown field" for a never-interned string is the right answer, and answers do not
    change as the interner grows *)
 Theorem C11_intern_lookup_sound : forall ss later o s,
@@ -73,5 +108,9 @@ Print Assumptions C11_done_is_stable.
 Print Assumptions C11_history_independent_unrestored_refuted.
 Print Assumptions C11_assert_flag_unrestored_refuted.
 Print Assumptions C11_memo_limit_refuted.
+Print Assumptions C11_history_independent_if_restored.
+Print Assumptions C11_history_independent_if_restored_eq.
+Print Assumptions C11_memo_transparent.
+Print Assumptions C11_restored_nonvacuous.
 Print Assumptions C11_intern_lookup_sound.
 Print Assumptions C11_nonvacuous.
